@@ -25,12 +25,16 @@ def gen_inherit(rng):
     """base operator over identifiers that contain one another (prefixes AND suffixes: k/kk/a_k, r2/x_r2, r/rr/r_in/in_r),
     terms in seeded order (so that any identifier can be the last token of an equation), a derived operator with
     overrides + edit dict, and the explicitly written expectation"""
+    suffix_case = rng.random() < 0.3     # an equation ENDS in a longer identifier whose suffix is the edited one (a_k / k)
+
     def eq(lhs, first, terms):
         terms = list(terms)
         rng.shuffle(terms)
         if rng.random() < 0.5:
             terms = terms + [first]
             first = terms.pop(0)
+        if suffix_case and any(t == 'a_k' for _, t in terms):
+            terms = [x for x in terms if x[1] != 'a_k'] + [x for x in terms if x[1] == 'a_k']
         out = first[1] if first[0] > 0 else f'-{first[1]}'
         for sgn, t in terms:
             out += (' + ' if sgn > 0 else ' - ') + t
@@ -58,7 +62,7 @@ def gen_inherit(rng):
     elif kind in ('replace', 'replace2'):
         # parameters and inputs only: replacing a state variable also on the left-hand side would be a rename, which the
         # edit dictionary does not offer (d/dt targets stay as they are)
-        old = rng.choice(params + ['k', 'r2'])
+        old = rng.choice(params + ['k', 'r2']) if not suffix_case else 'k'
         repl = rng.choice(['({old}*g2)', '({old} + g2)', 'g2'])
         new = repl.format(old=old)
         edits['replace'] = {old: new}
